@@ -18,6 +18,7 @@
   drain.  Both end with w3 ready, balance 30, and — after the removal — with w2 and w3 as the only wallets.
 -/
 import MW.Lemmas.Deepen4Resume
+import MW.Lemmas.Deepen4Unguarded
 import MW.Lemmas.Deepen3Ex
 namespace MW.Lemmas.Deepen4
 open MW MW.Model.Ledger MW.Model.Persist MW.Spec.Persist MW.Spec.Chain MW.Spec.Books MW.Lemmas.Ledger
@@ -228,5 +229,21 @@ theorem exEquivW : (runT exCfg true exX0 exEvsW).queue = [] ∧
   exact ⟨h.1, h.2.2.2.2.1, h.2.2.2.2.2.2.2.2.2.2.2.2.1⟩
 
 example : (skRunT exCfg exK0T exEvsW).busy = some (.imp "w3") := by rfl
+
+/-- the initial state satisfies the status / task-queue invariant, so on this history the worker that runs whatever
+    is queued (`runU`) does exactly what `runT` does -/
+theorem exStatOK0 : StatOK exX0 where
+  nodup := by show (List.map _ _).Nodup; decide
+  dom := by
+    intro e he
+    have : e = ("w1", ⟨none, false⟩) := by
+      have h' : e ∈ [(("w1", ⟨none, false⟩) : Wid × WStatus)] := he
+      simpa using h'
+    subst this
+    decide
+  tasks := fun t ht => by cases ht
+  excl := fun w hw => by cases hw
+
+example : runU exCfg true exX0 exEvsT = runT exCfg true exX0 exEvsT := runU_eq_runT exCfg true exX0 exEvsT exStatOK0
 
 end MW.Lemmas.Deepen4
